@@ -283,6 +283,23 @@ def implicit_tick_and_inputs(prog, rep):
            "the TICK_SKIP arm stores prev_player_cid = None" if none_after_skip else
            "the TICK_SKIP arm leaves prev_player_cid set: a player record after an explicit tick advance whose cid is <= the last one "
            "seen before it triggers a second, implicit advance (doc/teehistorian.md resets implicit_cid on TICK_SKIP)", b.loc())
+    # (d) every player record (PLAYER_DIFF, PLAYER_NEW, PLAYER_OLD) becomes the remembered client id
+    stored = set()
+    for bi in sorted(b.live):
+        for si, st in enumerate(b.blocks[bi]["st"]):
+            if st["k"] == "assign" and st["p"].get("pr"):
+                pe = ir.place(st["p"], (bi, si))
+                if ir.access_path(pe)[1] == ("prev_player_cid",):
+                    v = ir.rvalue(st["r"], (bi, si))
+                    if v[0] == "agg" and v[3] == "Some":
+                        txt = show(strip_sites(v))
+                        for kind in ("PlayerDiff", "PlayerNew", "PlayerOld"):
+                            if ("as %s)" % kind) in txt and txt.rstrip("}").endswith(".cid"):
+                                stored.add(kind)
+    want_kinds = {"PlayerDiff", "PlayerNew", "PlayerOld"}
+    rep.ob(rule, "every player record kind updates the remembered client id", stored == want_kinds,
+           "prev_player_cid = Some(cid) in the PLAYER_DIFF, PLAYER_NEW and PLAYER_OLD arms" if stored == want_kinds else
+           "prev_player_cid is not updated for %s: the next player record's implicit tick test compares with a stale id" % sorted(want_kinds - stored), b.loc())
     ins = []
     for bi, t in b.calls():
         if (t.get("callee") or "").endswith("::insert"):
